@@ -183,9 +183,18 @@ addbody(struct http_cookie * H, uint8_t * buf, size_t buflen)
 {
 	size_t nalloc;
 	uint8_t * nbuf;
+	size_t maxlen;
+
+	/*
+	 * Chunked data is stored along with its trailing EOL, which is
+	 * stripped once the chunk is complete; allow for those 2 bytes.
+	 */
+	maxlen = H->res_bodylen_max;
+	if (H->chunked && (maxlen <= SIZE_MAX - 2))
+		maxlen += 2;
 
 	/* The caller should make sure we don't exceed the maximum length. */
-	assert(H->res.bodylen + buflen <= H->res_bodylen_max);
+	assert(H->res.bodylen + buflen <= maxlen);
 
 	/* Reallocate if necessary. */
 	if (H->res.bodylen + buflen > H->res_bodylen_alloc) {
@@ -197,8 +206,8 @@ addbody(struct http_cookie * H, uint8_t * buf, size_t buflen)
 			nalloc = H->res.bodylen + buflen;
 
 		/* Decrease if we've gone too far. */
-		if (nalloc > H->res_bodylen_max)
-			nalloc = H->res_bodylen_max;
+		if (nalloc > maxlen)
+			nalloc = maxlen;
 
 		/* Expand our memory allocation. */
 		if ((nbuf = realloc(H->res.body, nalloc)) == NULL)
@@ -275,6 +284,7 @@ http_request2(struct sock_addr * const * addrs, struct http_request * request,
 	H->cookie = cookie;
 	H->sslhost = sslhost;
 	H->hepos = 0;
+	H->chunked = 0;
 	H->res_head = NULL;
 	H->res_bodylen_max = maxrlen;
 	H->res_bodylen_alloc = 0;
